@@ -79,6 +79,8 @@ def run(prop, tier, seed, only_rule=None):
             if cfg == cfgs[0]:
                 import canary
                 canary.run(prop, rep)
+                import witness
+                witness.run(prop, rep, tier)
         except Exception as e:  # fail closed
             import traceback
             rep.fail(prop + ".infra", "exception:%s" % type(e).__name__, "rule engine crashed (%s) — failing closed:\n%s" % (e, traceback.format_exc()[-2000:]))
